@@ -168,13 +168,29 @@ def module_of(rel):
     return rel[:-5].replace("/", ".")
 
 
-def forbidden_scan():
+def import_closure(props_rel):
+    """Project files (relative to LEAN) transitively imported by the props module."""
+    seen, todo = set(), [props_rel]
+    while todo:
+        rel = todo.pop()
+        if rel in seen:
+            continue
+        p = os.path.join(LEAN, rel)
+        if not os.path.exists(p):
+            continue
+        seen.add(rel)
+        for m in re.finditer(r"^\s*(?:public\s+)?import\s+(J5V\.[A-Za-z0-9_.']+)", open(p).read(), flags=re.M):
+            todo.append(m.group(1).replace(".", "/") + ".lean")
+    return sorted(seen)
+
+
+def forbidden_scan(props_rel):
+    """Forbidden constructs in the property module and everything of the project it imports."""
     hits = []
-    for root, _, files in os.walk(os.path.join(LEAN, "J5V")):
-        for fn in files:
-            if not fn.endswith(".lean"):
-                continue
-            p = os.path.join(root, fn)
+    for rel in import_closure(props_rel):
+        if True:
+            p = os.path.join(LEAN, rel)
+            fn = rel
             src = open(p).read()
             src_nc = re.sub(r"/-.*?-/", lambda m: "\n" * m.group(0).count("\n"), src, flags=re.S)
             for i, line in enumerate(src_nc.split("\n"), 1):
@@ -223,7 +239,7 @@ def lean_obligations(pid, props_rel, tier="quick"):
             res["broken"].append("%s uses axioms %s" % (full, ax))
         else:
             res["discharged"] += 1
-    hits = forbidden_scan()
+    hits = forbidden_scan(props_rel)
     if hits:
         res["broken"] += ["forbidden construct: " + h for h in hits]
     if tier == "thorough":
